@@ -37,8 +37,8 @@ def workdir(pid):
 
 
 def spec(entry, pkg=WIRE_PKG, overlay='harness/wire', interp=None, init=None, params=None, deadline='15m',
-         max_steps=None, max_paths=None, label=None, extra_overlay=None, replayable=True, solver='z3'):
-    return dict(entry=entry, pkg=pkg, overlay=overlay, interp=interp if interp is not None else DEFAULT_INTERP,
+         max_steps=None, max_paths=None, label=None, extra_overlay=None, replayable=True, solver='z3', overlay2=None):
+    return dict(entry=entry, pkg=pkg, overlay=overlay, overlay2=overlay2 or [], interp=interp if interp is not None else DEFAULT_INTERP,
                 init=init or [], params=params or {}, deadline=deadline, max_steps=max_steps, max_paths=max_paths,
                 label=label or entry, extra_overlay=extra_overlay or {}, replayable=replayable, solver=solver)
 
@@ -48,6 +48,8 @@ def run_gosym(pid, sp, idx):
     out = os.path.join(workdir(pid), 'run_%d_%s.json' % (idx, sp['entry']))
     cmd = [exe, '-repo', REPO, '-pkg', sp['pkg'], '-overlay', os.path.join(VERIF, sp['overlay']),
            '-entry', sp['entry'], '-out', out, '-deadline', sp['deadline'], '-solver', sp['solver']]
+    for d, target in sp.get('overlay2') or []:
+        cmd += ['-overlay', '%s=>%s' % (os.path.join(VERIF, d), target)]
     if sp['interp']:
         cmd += ['-interp', ','.join(sp['interp'])]
     if sp['init']:
@@ -83,7 +85,7 @@ def run_gosym(pid, sp, idx):
 _replay_bin = {}
 
 
-def build_replay_binary(pid, pkg, overlay):
+def build_replay_binary(pid, pkg, overlay, overlay2=()):
     """go test -c of the package with the harness (native runtime) overlaid."""
     key = (pkg, overlay)
     if key in _replay_bin:
@@ -99,6 +101,12 @@ def build_replay_binary(pid, pkg, overlay):
         ov[os.path.join(pkgdir, 'zz_verif_' + f)] = os.path.join(src, f)
         txt = open(os.path.join(src, f)).read()
         entries += re.findall(r'^func (H_\w+)\(\)', txt, re.M)
+    for d2, target in overlay2:
+        src2 = os.path.join(VERIF, d2)
+        for f in sorted(os.listdir(src2)):
+            if not f.endswith('.go') or f.endswith('_engine.go') or f.endswith('_test.go'):
+                continue
+            ov[os.path.join(REPO, PKG_DIR[target], 'zz_verif_' + f)] = os.path.join(src2, f)
     pkgname = 'wire' if pkg == WIRE_PKG else 'main'
     ent = os.path.join(wd, 'entries_%s.go' % pkgname)
     with open(ent, 'w') as fh:
@@ -122,7 +130,7 @@ def build_replay_binary(pid, pkg, overlay):
 
 def replay_native(pid, sp, model, tape_path=None):
     """Runs the harness natively on the model. Returns dict(result=..., covers=[...], raw=...)."""
-    exe = build_replay_binary(pid, sp['pkg'], sp['overlay'])
+    exe = build_replay_binary(pid, sp['pkg'], sp['overlay'], tuple(tuple(x) for x in (sp.get('overlay2') or [])))
     if exe is None:
         return dict(result='build-failed', covers=[], raw='')
     wd = workdir(pid)
